@@ -345,9 +345,71 @@ struct SmSession : public vw::Session {
     return R.regVbk(block) + " " + R.regBtc(bb->getHeader());
   }
 
+  // mvtb <vparent> <w> <endorsed> <bparent|prev> <last|prev> [<w> <endorsed> <bparent|prev> <last|prev>]...
+  // several honest VTBs contained in ONE VBK block (one pop tx each, in the given order). `prev` = the block of proof
+  // of the previous VTB of the list. -> "<vbk id> <btc id>..."
+  std::string mvtb(const std::vector<std::string>& t) {
+    if (t.size() < 6 || (t.size() - 2) % 4 != 0) return "SKIP args";
+    auto& R = *reg;
+    if (!R.vbk.count(t[1])) return "SKIP";
+    std::vector<VbkPopTx> txs;
+    std::vector<const BlockIndex<BtcBlock>*> bops;
+    for (size_t i = 2; i + 3 < t.size(); i += 4) {
+      if (R.vtb.count(t[i]) || !R.vbk.count(t[i + 1])) return "SKIP";
+      const BlockIndex<BtcBlock>* bp = nullptr;
+      if (t[i + 2] == "prev") { if (bops.empty()) return "SKIP"; bp = bops.back(); }
+      else { if (!R.btc.count(t[i + 2])) return "SKIP"; bp = R.bidx(t[i + 2]); }
+      BtcBlock::hash_t last;
+      if (t[i + 3] == "prev") { if (bops.empty()) return "SKIP"; last = bops.back()->getHash(); }
+      else { if (!R.btc.count(t[i + 3])) return "SKIP"; last = R.btc.at(t[i + 3]).getHash(); }
+      const auto& eb = R.vbk.at(t[i + 1]);
+      auto btctx = R.miner.createBtcTxEndorsingVbkBlock(eb);
+      R.tick();
+      auto* bb = R.miner.mineBtcBlocks(1, *bp, {btctx});
+      if (bb == nullptr) return "SKIP miner-rejected";
+      txs.push_back(R.miner.createVbkPopTxEndorsingVbkBlock(bb->getHeader(), btctx, eb, last));
+      bops.push_back(bb);
+    }
+    R.tick();
+    auto* vb = R.miner.mineVbkBlocks(1, *R.vidx(t[1]), txs);
+    if (vb == nullptr) { R.sweep(); return "SKIP miner-rejected"; }
+    size_t k = 0;
+    for (size_t i = 2; i + 3 < t.size(); i += 4, k++) {
+      auto v = R.miner.createVTB(vb->getHeader(), txs[k]);
+      R.vtb[t[i]] = v;
+      auto wid = v.getId();
+      R.names["id:" + vh::hex(wid.data(), wid.size())] = t[i];
+    }
+    std::string r = R.regVbk(vb->getHeader());
+    for (auto* b : bops) r += " " + R.regBtc(b->getHeader());
+    R.sweep();
+    return r;
+  }
+
+  // ordered VTB ids of every VBK block that holds any (the order the VBK state machine re-executes them in)
+  std::string vtbOrder(vw::Instance& I) {
+    std::vector<std::pair<std::string, std::string>> rows;
+    for (auto* i : I.tree.vbk().getBlocks()) {
+      auto& ids = i->template getPayloadIds<VTB>();
+      if (ids.empty()) continue;
+      std::string s;
+      for (auto& id : ids) {
+        auto it = reg->names.find("id:" + vh::hex(id.data(), id.size()));
+        s += (it == reg->names.end() ? "?" : it->second) + ",";
+      }
+      rows.push_back({reg->nameOf(i->getHash()), s});
+    }
+    std::sort(rows.begin(), rows.end(), [](const std::pair<std::string, std::string>& a, const std::pair<std::string, std::string>& b) { return idLess(a.first, b.first); });
+    std::string r;
+    for (auto& x : rows) r += x.first + "=[" + x.second + "] ";
+    return r.empty() ? "-" : r;
+  }
+
   std::string extra(vw::Instance& I, const std::vector<std::string>& t) override {
     if (t[0] == "sm") return smDump(I);
     if (t[0] == "xvtb") return xvtb(t);
+    if (t[0] == "mvtb") return mvtb(t);
+    if (t[0] == "vtborder") return vtbOrder(I);
     if (t[0] == "valid") {
       std::vector<std::string> v;
       for (auto* w : I.tree.getBlocks())
